@@ -284,6 +284,7 @@ C06Raw(sn, calls) ==
        /\ IsPodCreate(c) =>
             LET i == Ints(c)[1] IN
             /\ Ints(c)[2] = 1                                             \* identity + owner + volumes as C06 states
+            /\ c[7][1] = "tmpl-ok"                                        \* built from the revision its label names
             \* every claim of the ordinal exists (cache) or was created earlier in this reconcile
             /\ \A n \in ClaimsOf(sn, i) :
                   n \in sn.pvcs \/ \E j \in 1..(k - 1) : IsClaimCall(calls[j]) /\ Name(calls[j]) = n
